@@ -21,12 +21,27 @@ def site(name, impl, nth_label):
             ]}
 
 
+def offset_of_site(name, impl):
+    return {"kind": "fn", "file": CG, "name": name, "impl": impl, "ret": "r",
+            "closure": {"enclosing": "codegen", "anchor": "let compile_time =", "nth": 0, "stmt": "let",
+                        "signature": "fn %s(ctx: &BindgenContext) -> (r: bool)" % name,
+                        "prefix": "{", "suffix": "; compile_time }"},
+            "ensures": [
+                # C14: `compile_time` selects `::core::mem::offset_of!` for the field-offset checks
+                "r ==> ctx.spec_options().rust_features.offset_of",
+            ]}
+
+
 UNIT = {
     "name": "gates",
     "env": [os.path.join(ENV, "gates_env.rs")],
     "declared_trusted": {r"external_body": 4},
     "items": [
+        {"kind": "options_bools", "extra": ["pub rust_features: RustFeatures"]},
         site("extern_static_safety", r"^impl CodeGenerator for Var$", 0),
         site("extern_fn_safety", r"^impl CodeGenerator for Function$", 0),
+        # which form the struct layout assertions take: `offset_of!` (Rust 1.77) only when the target has it (the template-instantiation
+        # site has the same flag but spells no gated construct in either form: `const _` and size_of/align_of are older than 1.51)
+        offset_of_site("comp_layout_compile_time", r"^impl CodeGenerator for CompInfo$"),
     ],
 }
